@@ -5,9 +5,12 @@ From SAV.engine Require Import Disconnect.
 
 Definition blocked (s : st) : Prop := s_cur s = None /\ s_txn s <> TNone.
 
+(* invalidate_pool_on_disconnect after the listeners ran (it does not depend on the error) *)
+Definition pool_inv (lst : list lbeh) : bool := snd (fst (run_chain lst false true false)).
+
 (* the state after _handle_dbapi_exception invalidated the live connection [cid] *)
-Definition inval_state (lst : nat) (s : st) (cid : nat) : st :=
-  let ip := negb (Nat.eqb lst 3) in
+Definition inval_state (lst : list lbeh) (s : st) (cid : nat) : st :=
+  let ip := pool_inv lst in
   let clk := if ip then S (s_clock s) else s_clock s in
   mk (s_n s) ((K_CLOSE, cid) :: s_log s) (s_nconn s) clk (s_idle s ++ [None])
      (if ip then clk else s_invt s) None (s_txn s) (s_nested s).
@@ -16,47 +19,66 @@ Definition called (k cid : nat) (s : st) : st :=
   mk (S (s_n s)) ((k, cid) :: s_log s) (s_nconn s) (s_clock s) (s_idle s) (s_invt s) (s_cur s)
      (s_txn s) (s_nested s).
 
+(* the result is a (possibly replaced) DBAPI error *)
+Definition err_like (c : code) : Prop :=
+  match c with RErr => True | RDisc => True | RCustom _ => True | _ => False end.
+
+Lemma run_chain_ip_indep : forall l d d' ip e,
+  snd (fst (run_chain l d ip e)) = snd (fst (run_chain l d' ip e)) /\
+  snd (run_chain l d ip e) = snd (run_chain l d' ip e).
+Proof.
+  induction l as [|b l IH]; intros d d' ip e; [cbn; auto|].
+  cbn [run_chain]. destruct (lb_out b) as [|[|[|n]]]; cbn; auto; apply IH.
+Qed.
+
+Lemma is_disc_err_code : forall d e, is_disc (err_code d e) = d.
+Proof. intros [] []; reflexivity. Qed.
+Lemma err_like_err_code : forall d e, err_like (err_code d e).
+Proof. intros [] []; exact I. Qed.
+
 Section P.
   Variable faults : nat -> fault.
-  Variable lst : nat.
+  Variable lst : list lbeh.
 
   Lemma handle_spec : forall f s s' c, handle lst f s = (s', c) ->
-    (c = RErr /\ s' = s) \/
-    (c = RDisc /\ s_cur s = None /\ s' = s) \/
-    (c = RDisc /\ exists cid st0, s_cur s = Some (cid, st0) /\ s' = inval_state lst s cid).
+    err_like c /\
+    ((is_disc c = false /\ s' = s) \/
+     (is_disc c = true /\ s_cur s = None /\ s' = s) \/
+     (is_disc c = true /\ exists cid st0, s_cur s = Some (cid, st0) /\ s' = inval_state lst s cid)).
   Proof.
-    intros f s s' c H. unfold handle in H. destruct (classify lst f) as [d ip] eqn:Ec.
-    unfold classify in Ec. injection Ec as Ed Eip.
+    intros f s s' c H. unfold handle in H. destruct (classify lst f) as [[d ip] exn] eqn:Ec.
+    assert (Eip : ip = pool_inv lst).
+    { unfold pool_inv. unfold classify in Ec.
+      destruct (run_chain_ip_indep lst (match f with FDisc => true | _ => false end) false true false) as [X _].
+      rewrite Ec in X. exact X. }
     destruct d.
-    - destruct (s_cur s) as [[cid st0]|] eqn:E; injection H as <- <-.
+    - destruct (s_cur s) as [[cid st0]|] eqn:E; injection H as <- <-; (split; [apply err_like_err_code|]);
+        rewrite is_disc_err_code.
       + right. right. split; [reflexivity|]. exists cid, st0. split; [reflexivity|].
         unfold inval_state. rewrite Eip. reflexivity.
       + right. left. auto.
-    - injection H as <- <-. left. auto.
+    - injection H as <- <-. split; [apply err_like_err_code|]. rewrite is_disc_err_code. left. auto.
   Qed.
-
-  Lemma handle_disc_iff : forall f s s', handle lst f s = (s', RErr) ->
-    forall s2 c2, handle lst f s2 = (s2, c2) -> True.
-  Proof. trivial. Qed.
 
   Lemma coh_spec : forall k cid st0 s s' c, s_cur s = Some (cid, st0) ->
     call_or_handle faults lst k cid s = (s', c) ->
     (c = ROk /\ s' = called k cid s /\ faults (S (s_n s)) = FOk) \/
-    (c = RErr /\ s' = called k cid s /\ faults (S (s_n s)) <> FOk) \/
-    (c = RDisc /\ s' = inval_state lst (called k cid s) cid /\ faults (S (s_n s)) <> FOk).
+    (err_like c /\ is_disc c = false /\ s' = called k cid s /\ faults (S (s_n s)) <> FOk) \/
+    (err_like c /\ is_disc c = true /\ s' = inval_state lst (called k cid s) cid /\ faults (S (s_n s)) <> FOk).
   Proof.
     intros k cid st0 s s' c Hcur H. unfold call_or_handle, dbcall in H. fold (called k cid s) in H.
     assert (Hc : s_cur (called k cid s) = Some (cid, st0)) by exact Hcur.
+    assert (G : forall f, f <> FOk -> handle lst f (called k cid s) = (s', c) ->
+              (err_like c /\ is_disc c = false /\ s' = called k cid s /\ f <> FOk) \/
+              (err_like c /\ is_disc c = true /\ s' = inval_state lst (called k cid s) cid /\ f <> FOk)).
+    { intros f Hf Hh. destruct (handle_spec _ _ _ _ Hh) as (El & [[Ed ->]|[(Ed & E & ->)|(Ed & cid' & st' & E & ->)]]).
+      - left. auto.
+      - congruence.
+      - rewrite Hc in E. injection E as <- <-. right. auto. }
     destruct (faults (S (s_n s))) eqn:Ef.
     - injection H as <- <-. left. auto.
-    - destruct (handle_spec _ _ _ _ H) as [[-> ->]|[(-> & E & ->)|(-> & cid' & st' & E & ->)]].
-      + right. left. repeat split; auto. discriminate.
-      + congruence.
-      + rewrite Hc in E. injection E as <- <-. right. right. repeat split; auto. discriminate.
-    - destruct (handle_spec _ _ _ _ H) as [[-> ->]|[(-> & E & ->)|(-> & cid' & st' & E & ->)]].
-      + right. left. repeat split; auto. discriminate.
-      + congruence.
-      + rewrite Hc in E. injection E as <- <-. right. right. repeat split; auto. discriminate.
+    - right. apply (G FErr); [discriminate|exact H].
+    - right. apply (G FDisc); [discriminate|exact H].
   Qed.
 
   (* connect *)
@@ -115,7 +137,7 @@ Section P.
   Lemma ensure_frame : forall s s' e, ensure faults lst s = (s', e) ->
     s_txn s' = s_txn s /\ s_nested s' = s_nested s /\
     (e = None -> exists c, s_cur s' = Some c) /\
-    (forall c, e = Some c -> s_cur s' = None /\ s_cur s = None /\ (c = RDisc \/ c = RErr \/ c = RPending)) /\
+    (forall c, e = Some c -> s_cur s' = None /\ s_cur s = None /\ (err_like c \/ c = RPending)) /\
     (s_invt s' = s_invt s).
   Proof.
     intros s s' e H. unfold ensure in H.
@@ -127,14 +149,14 @@ Section P.
         assert (Hfail : f <> FOk -> forall s2 c, handle lst f s1 = (s2, c) ->
                   s_txn s2 = s_txn s /\ s_nested s2 = s_nested s /\
                   (Some c = None -> exists c, s_cur s2 = Some c) /\
-                  (forall c', Some c = Some c' -> s_cur s2 = None /\ @None (nat*nat) = None /\ (c' = RDisc \/ c' = RErr \/ c' = RPending)) /\
+                  (forall c', Some c = Some c' -> s_cur s2 = None /\ @None (nat*nat) = None /\ (err_like c' \/ c' = RPending)) /\
                   s_invt s2 = s_invt s).
         { intros Hf s2 c Eh. specialize (E Hf).
-          assert (Hs2 : s2 = s1 /\ (c = RDisc \/ c = RErr)).
-          { destruct (handle_spec _ _ _ _ Eh) as [[-> ->]|[(-> & _ & ->)|(-> & cid' & st' & E' & _)]]; auto. congruence. }
+          assert (Hs2 : s2 = s1 /\ err_like c).
+          { destruct (handle_spec _ _ _ _ Eh) as (El & [[_ ->]|[(_ & _ & ->)|(_ & cid' & st' & E' & _)]]); auto. congruence. }
           destruct Hs2 as [-> Hc].
           refine (conj _ (conj _ (conj _ (conj _ _)))); auto; try discriminate.
-          intros c' Hc'. injection Hc' as <-. destruct Hc; auto. }
+          intros c' Hc'. injection Hc' as <-. auto. }
         destruct f.
         * injection H as <- <-. repeat split; auto; try discriminate; congruence.
         * destruct (handle lst FErr s1) as [s2 c] eqn:Eh. injection H as <- <-.
@@ -145,3 +167,33 @@ Section P.
       + injection H as <- <-. refine (conj _ (conj _ (conj _ (conj _ _)))); auto; try discriminate. intros c Hc. injection Hc as <-. auto.
   Qed.
 End P.
+
+(* ---- the handle_error listener chain ---- *)
+(* the listeners that actually run: up to and including the first one that raises *)
+Fixpoint executed (l : list lbeh) : list lbeh :=
+  match l with
+  | [] => []
+  | b :: r => if Nat.eqb (lb_out b) 2 then [b] else b :: executed r
+  end.
+Definition last_set (get : lbeh -> option bool) (l : list lbeh) (x : bool) : bool :=
+  fold_left (fun acc b => assign (get b) acc) l x.
+Definition yields_exn (b : lbeh) : bool := Nat.eqb (lb_out b) 1 || Nat.eqb (lb_out b) 2.
+
+(* the classification the handler ends with is the last value a listener that ran assigned (the dialect's
+   verdict if none did) - no matter whether the chain ended normally, with returned exceptions, or with a raise *)
+Theorem chain_final : forall l d ip e,
+  run_chain l d ip e =
+  (last_set lb_d (executed l) d, last_set lb_p (executed l) ip, e || existsb yields_exn (executed l)).
+Proof.
+  induction l as [|b l IH]; intros d ip e; cbn [run_chain executed].
+  - cbn. rewrite orb_false_r. reflexivity.
+  - unfold yields_exn. destruct (lb_out b) as [|[|[|n]]] eqn:Eo; cbn [Nat.eqb]; cbn [last_set fold_left existsb];
+      rewrite ?Eo; cbn [Nat.eqb orb]; rewrite ?IH; unfold last_set, yields_exn; rewrite ?orb_true_r, ?orb_false_r;
+      try reflexivity.
+Qed.
+
+(* Connection._is_disconnect is cleared by every run of the handler, whatever it was before, whatever the
+   dialect and the listeners say, whether or not the Connection was already invalidated: the attribute is False
+   at the start of every later run (so an earlier disconnect never taints the classification of a later error) *)
+Theorem flag_after_false : forall lst flag d0 inv, flag_after lst flag d0 inv = false.
+Proof. intros. unfold flag_after. destruct (fst (fst (run_chain lst (if flag then true else d0) true false))); reflexivity. Qed.
